@@ -20,7 +20,7 @@
 #include "thr_common.h"
 
 #define HPK MPMC_HAZARD_COUNT
-#define MAXN 12
+#define MAXN 16
 #define RECSZ (sizeof(hazard_pointer_thread_record_t) + HPK * sizeof(hazard_node_t*))
 
 static _Atomic(hazard_pointer_thread_record_t*) hp_head;
@@ -171,19 +171,23 @@ static void drv_setup(void) {
   vrt_reg_obj("pool", free_stack, sizeof free_stack, pf, 1);
 }
 static void do_push(int tid, const char* v) {
-  vrt_api("\"f\":\"t%d\",\"ph\":\"call\",\"op\":\"push\",\"v\":\"%s\"", tid, v);
-  if (!free_stack[0]) { /* no free node: the push is refused by the allocator, nothing happens */
-    vrt_api("\"f\":\"t%d\",\"ph\":\"ret\",\"op\":\"push\",\"v\":\"%s\",\"r\":0", tid, v);
+  if (!free_stack[0]) { /* no free node: the operation is skipped (the model does the same) */
+    vrt_note("\"f\":\"t%d\",\"what\":\"push %s skipped: pool empty\"", tid, v);
     return;
   }
+  vrt_api("\"f\":\"t%d\",\"ph\":\"call\",\"op\":\"push\",\"v\":\"%s\"", tid, v);
   mpmc_fifo_node_t* n = &arena[free_stack[free_stack[0]--]];
   n->value = val_ptr(v);
   mpmc_fifo_push(recs[tid], &q, n);
-  vrt_api("\"f\":\"t%d\",\"ph\":\"ret\",\"op\":\"push\",\"v\":\"%s\",\"r\":1", tid, v);
+  vrt_api("\"f\":\"t%d\",\"ph\":\"ret\",\"op\":\"push\",\"v\":\"%s\"", tid, v);
 }
 static void do_thr(int tid, size_t v) { atomic_store(&recs[tid]->retire_threshold, v); }
 static void drv_op(int tid, const char* op, const char* a1, const char* a2, const char* a3) {
   (void)a3;
+  /* hazard-pointer level operations have no API records: a note closes the running step so that
+     the private effects of this operation (retired list) are not merged into the last step of
+     the previous operation */
+  if (strcmp(op, "push") && strcmp(op, "pop")) vrt_note("\"f\":\"t%d\",\"what\":\"%s %s %s\"", tid, op, a1, a2);
   if (!strcmp(op, "push")) {
     do_push(tid, a1);
   } else if (!strcmp(op, "pop")) {
